@@ -2,6 +2,7 @@ SPECIFICATION Spec
 CONSTANTS
   Rich = FALSE
   BigCounts = {999, 1000}
+  DenseCounts <- DenseQuick
 INVARIANT InvRoundTrip
 INVARIANT InvColumns
 INVARIANT InvVersion
